@@ -453,6 +453,17 @@ def set_counters(start):
     _ = ufl
 
 
+def set_one_counter(name, n):
+    """Next object of the counted class `name` gets the count n."""
+    import ufl.classes as uc
+    from ufl.domain import Mesh
+
+    if name == "Mesh":
+        Mesh._ufl_global_id = int(n)
+    else:
+        getattr(uc, name)._counter = itertools.count(int(n))
+
+
 _CAT = {}
 
 
@@ -521,6 +532,10 @@ def build(recipe, conf):
 
     set_counters(conf["start"])
     noise = _Noise(conf["noise"], recipe["cell"], recipe["gdim"]) if conf.get("noise") else None
+    # diagnostics only: give the own objects of some classes exactly the listed counts
+    force = {k: list(v) for k, v in (conf.get("force") or {}).items()}
+    made_of = {k: 0 for k in COUNTED}
+    op_class = {"mesh": "Mesh", "coef": "Coefficient", "const": "Constant", "index": "Index", "var": "Label"}
     cat = _catalogue(recipe["cell"], recipe["gdim"])
     vals = []
     own = {k: [] for k in COUNTED}
@@ -543,6 +558,10 @@ def build(recipe, conf):
         o, a, p = st["o"], [vals[k] for k in st["a"]], st["p"]
         if noise is not None and o in ("mesh", "const", "coef", "index", "var", "integral", "as_tensor", "geo"):
             noise.tick()
+        if force and o in op_class and op_class[o] in force:
+            cls = op_class[o]
+            set_one_counter(cls, force[cls][made_of[cls]])
+            made_of[cls] += 1
         if o == "mesh":
             v = E.mesh_for(p["cell"], p["gdim"])
             own["Mesh"].append(v)
@@ -621,7 +640,7 @@ def _alarm(signum, frame):
     raise _Timeout()
 
 
-def observe(recipe, conf, want_canon=True, per_recipe_timeout=20):
+def observe(recipe, conf, want_canon=True, per_recipe_timeout=20, only=None, use_alarm=True):
     """Build and observe one recipe; every observable goes through the real UFL functions."""
     import ufl
     from ufl.algorithms import compute_form_data
@@ -629,8 +648,9 @@ def observe(recipe, conf, want_canon=True, per_recipe_timeout=20):
     from ufl.algorithms.signature import compute_expression_signature, compute_terminal_hashdata
 
     out = {}
-    signal.signal(signal.SIGALRM, _alarm)
-    signal.alarm(per_recipe_timeout)
+    if use_alarm:
+        signal.signal(signal.SIGALRM, _alarm)
+        signal.alarm(per_recipe_timeout)
     try:
         try:
             form, own, made = build(recipe, conf)
@@ -651,6 +671,8 @@ def observe(recipe, conf, want_canon=True, per_recipe_timeout=20):
         out["counts"] = counts
 
         def guarded(name, f):
+            if only is not None and name not in only:
+                return
             try:
                 out[name] = f()
             except _Timeout:
@@ -727,7 +749,8 @@ def observe(recipe, conf, want_canon=True, per_recipe_timeout=20):
     except _Timeout:
         out["timeout"] = True
     finally:
-        signal.alarm(0)
+        if use_alarm:
+            signal.alarm(0)
     return out
 
 
